@@ -293,6 +293,18 @@ def Allowlist.update (l : Allowlist) (nets : List Prefix) : Allowlist := { l wit
 /-- The list the limiter's `allowed` test runs over. -/
 def Allowlist.flat (l : Allowlist) : List Prefix := l.persistent ++ l.dynamic
 
+/-- A consul record is one address; `loadConsul` turns it into the network that holds exactly that
+host (`r.Address.Prefix(r.Address.BitLen())`). -/
+def hostPrefix (a : Addr) : Prefix := { is4 := a.is4, val := a.val, bits := width a.is4 }
+
+/-- `consul.AllowlistUpdater.Refresh`: `none` = the HTTP request failed, the status was not 200 or the
+body did not decode — the error is returned before `Update` is reached and the list stays as it was;
+`some addrs` = the decoded records, which replace the dynamic networks. -/
+def Allowlist.consulRefresh (l : Allowlist) (resp : Option (List Addr)) : Allowlist :=
+  match resp with
+  | none => l
+  | some addrs => l.update (addrs.map hostPrefix)
+
 end Agd.Ratelimit
 
 namespace Agd.Ratelimit
@@ -513,6 +525,29 @@ def profSpecRun (rps : Nat) (subnets : List Prefix) : List Int → List (Int × 
 def TChain : Int → List (Int × Addr) → Prop
   | _, [] => True
   | T, (t, _) :: r => 0 < t ∧ T ≤ t ∧ TChain t r
+
+/-! ## Runs with consul refreshes of the allowlist -/
+
+/-- An operation of a run: a query event or a consul refresh of the allowlist. -/
+inductive Op
+  | ev (e : Ev)
+  | refresh (resp : Option (List Addr))
+
+/-- The limiter and its `DynamicAllowlist` driven by a list of operations: a refresh changes the
+allowlist object only, a query is judged under the allowlist as it is at that moment. -/
+def runOps (c : Cfg) : St → Allowlist → List Op → List Verdict
+  | _, _, [] => []
+  | s, l, .refresh resp :: r => runOps c s (l.consulRefresh resp) r
+  | s, l, .ev e :: r =>
+    (isRateLimited { c with allow := l.flat } s e.now e.addr e.qtype).2 ::
+      runOps c (isRateLimited { c with allow := l.flat } s e.now e.addr e.qtype).1 l r
+
+/-- Declarative reading of the same operations: each query event paired with the networks that are
+allowlisted when it arrives — the persistent ones plus the hosts of the last successful refresh. -/
+def annotOps : Allowlist → List Op → List (List Prefix × Ev)
+  | _, [] => []
+  | l, .refresh resp :: r => annotOps (l.consulRefresh resp) r
+  | l, .ev e :: r => (l.flat, e) :: annotOps l r
 
 /-- Verdicts, within a whole history with per-event allowlists, of the events in bucket `k`. -/
 def runKA (c : Cfg) (k : Key) : St → List (List Prefix × Ev) → List Verdict
